@@ -221,7 +221,7 @@ func init() {
 func TestC19(t *testing.T) {
 	rig.Main(t, "C19", "rapid: an emitter history (instructions incl. wrong-width immediates, data, labels, references, base, assumptions) x a capacity solved to end exactly at, or 1-3 bytes inside, "+
 		"a drawn instruction or data block (also 0 and the full size): every call must be accepted iff it fits, a refused call must leave bytes, length, PC and labels unchanged, Len <= Cap always; in a third of the cases some of the calls before the capacity edge are emitted into a Clone and appended; "+
-		"the same history on an emitter without a target must report the same PC, label addresses and flags after every call as an emitter with a large buffer, with Len() == 0.  "+
+		"the same history on an emitter without a target must report the same PC, label addresses and flags after every call as an emitter with a large buffer, with Len() == 0; the tail of the history is also measured twice on discarded Clone(nil) copies of the emitter that holds the head and then emitted for real on it.  "+
 		"Non-trivial = at least one call was refused for capacity; distinct = hash(case).",
 		func(r *rig.Run) {
 			ev := r.Ev
